@@ -6,6 +6,8 @@ sys.path.insert(0, os.path.join(os.path.dirname(os.path.abspath(__file__)), '..'
 from vlib.common import strip_comments
 here = os.path.dirname(os.path.abspath(__file__))
 reg = {}
+# the message-level refinement theorem (namespace Scpi.Msg) is the core of the path rule (C02) and of lexical irrelevance (C11)
+SHARED = {'Scpi.Props.RunRender': ['C02', 'C11']}
 for fn in sorted(os.listdir(os.path.join(here, 'Scpi', 'Props'))):
     if not fn.endswith('.lean'):
         continue
@@ -24,12 +26,12 @@ for fn in sorted(os.listdir(os.path.join(here, 'Scpi', 'Props'))):
         if m:
             full = '.'.join(ns + [m.group(1)])
             pm = re.search(r'\bC(\d\d)\b', full)
-            if not pm:
-                continue
-            prop = 'C' + pm.group(1)
-            e = reg.setdefault(prop, {'modules': [], 'theorems': []})
-            if mod not in e['modules']:
-                e['modules'].append(mod)
-            e['theorems'].append(full)
+            # theorems outside a property namespace serve the properties listed for their module
+            targets = ['C' + pm.group(1)] if pm else SHARED.get(mod, [])
+            for prop in targets:
+                e = reg.setdefault(prop, {'modules': [], 'theorems': []})
+                if mod not in e['modules']:
+                    e['modules'].append(mod)
+                e['theorems'].append(full)
 json.dump(reg, open(os.path.join(here, 'props.json'), 'w'), indent=1)
 print({k: len(v['theorems']) for k, v in sorted(reg.items())})
